@@ -31,6 +31,8 @@ pub open spec fn box_str_view(a: Box<str>) -> Seq<char> { (*a)@ }
 
 pub assume_specification<'a> [<Box<str> as From<&'a str>>::from] (s: &str) -> (r: Box<str>)
     ensures box_str_view(r) == s@;
+pub assume_specification [<Box<str> as From<String>>::from] (s: String) -> (r: Box<str>)
+    ensures box_str_view(r) == s@;
 pub assume_specification<T> [std::mem::replace] (dest: &mut T, src: T) -> (r: T)
     ensures r == *old(dest), *final(dest) == src;
 
@@ -124,6 +126,11 @@ impl GhostLog {
     pub fn empty() -> (r: GhostLog) ensures r.0@ == Seq::<u8>::empty(), r.1@ == false, r.2@ == Seq::<u8>::empty(), r.3@ == 0, r.4@ == 0 { GhostLog(Ghost(Seq::empty()), Ghost(false), Ghost(Seq::empty()), Ghost(0), Ghost(0)) }
     pub fn of(rx: Ghost<Seq<u8>>, eof: Ghost<bool>) -> (r: GhostLog) ensures r.0@ == rx@, r.1@ == eof@, r.2@ == Seq::<u8>::empty(), r.3@ == 0, r.4@ == 0 { GhostLog(rx, eof, Ghost(Seq::empty()), Ghost(0), Ghost(0)) }
 }
+pub assume_specification<T, E> [Result::<Option<T>, E>::transpose] (r: Result<Option<T>, E>) -> (o: Option<Result<T, E>>)
+    ensures o == match r { Ok(Some(x)) => Some(Ok::<T, E>(x)), Ok(None) => None::<Result<T, E>>, Err(e) => Some(Err::<T, E>(e)) };
+pub uninterp spec fn dur_millis(d: std::time::Duration) -> nat;
+pub assume_specification [std::time::Duration::from_millis] (m: u64) -> (r: std::time::Duration)
+    ensures dur_millis(r) == m;
 /// N21: `panic!(..)` / `unreachable!(..)` in lifted code become a call of this function: reaching it is an obligation
 /// (`requires false`); the message formatting is dropped
 #[verifier::external_body]
